@@ -886,6 +886,14 @@ class Interp:
         self.calls.append((name, [self.lift(x) if not is_sym(x) else x for x in a], outs))
         return outs
 
+    def _scaled_concrete(self, A):
+        if self.mode != "real":
+            return None
+        try:
+            return _scaled_concrete_impl(A)
+        except Exception:
+            return None
+
     def p_eigh(self, e, a):
         # contract stub: A V = V diag(w), V^T V = I, w ascending
         A = self.lift(a[0])
@@ -895,6 +903,20 @@ class Interp:
         for (A0, V0, w0) in self.eigs:   # same operand term => same decomposition
             if A0.shape == A.shape and all(_same(x, y) for x, y in zip(A0.reshape(-1), A.reshape(-1))):
                 return [V0, w0]
+        sc = self._scaled_concrete(A)
+        if sc is not None:
+            # A = K * s with K concrete symmetric and s one symbolic scalar: eigh(A) = (V_K, w_K * s) for s > 0
+            Kc, s_term = sc
+            wK, VK = np.linalg.eigh(np.asarray(Kc, dtype=np.float64))
+            wK = np.where(np.abs(wK) < 1e-6, 0.0, wK)          # exact zeros of the rank-deficient table
+            w = np.empty((nn,), dtype=object)
+            for i in range(nn):
+                w[i] = self.fconst(np.float32(wK[i])) * s_term
+            V = self.lift(np.asarray(VK, dtype=np.float32))
+            self.assumed.append(s_term > 0)
+            self.eigs.append((A, V, w))
+            self.stubs.append(("eigh(concrete K * scalar)", None))
+            return [V, w]
         t = len(self.eigs)
         V = sym_array(f"eigV{self.tag}{t}", (nn, nn))
         w = sym_array(f"eigw{self.tag}{t}", (nn,))
@@ -906,6 +928,66 @@ class Interp:
             self.side.append(w[i] <= w[i + 1])
         self.eigs.append((A, V, w))
         return [V, w]
+
+
+def _scaled_concrete_impl(A):
+    """if every cell of the symbolic matrix A is k_ij * s for numerals k_ij and one common term s,
+    return (K, s); else None"""
+    nn = A.shape[-1]
+    base = None
+    for i in range(nn):
+        for j in range(nn):
+            c = z3.simplify(A[i, j])
+            if z3.is_rational_value(c):
+                continue
+            base = (i, j)
+            break
+        if base:
+            break
+    if base is None:
+        return None
+    # find the scalar: s := A[base] / A[base]|_{vars=1}
+    vars_ = set()
+    stack = [z3.simplify(A[base])]
+    while stack:
+        x = stack.pop()
+        if z3.is_const(x) and x.decl().kind() == z3.Z3_OP_UNINTERPRETED:
+            vars_.add(x)
+        stack.extend(x.children())
+    if len(vars_) != 1:
+        return None
+    v = next(iter(vars_))
+    one = z3.RealVal(1)
+    K = np.zeros((nn, nn))
+    for i in range(nn):
+        for j in range(nn):
+            kij = z3.simplify(z3.substitute(A[i, j], (v, one)))
+            if not z3.is_rational_value(kij):
+                return None
+            K[i, j] = float(kij.numerator_as_long()) / float(kij.denominator_as_long())
+    kb = K[base]
+    if kb == 0:
+        return None
+    s_term = A[base] / z3.RealVal(repr(float(kb))) if False else z3.simplify(A[base] * z3.Q(1, 1) / _rat(kb))
+    # verify A == K * s cell by cell (syntactically after simplification, else by the solver)
+    for i in range(nn):
+        for j in range(nn):
+            d = z3.simplify(A[i, j] - _rat(K[i, j]) * s_term)
+            if not (z3.is_rational_value(d) and d.numerator_as_long() == 0):
+                sol = z3.Solver()
+                sol.set("timeout", 5000)
+                sol.add(v > 0, A[i, j] != _rat(K[i, j]) * s_term)
+                if str(sol.check()) != "unsat":
+                    return None
+    if not np.allclose(K, K.T):
+        return None
+    return K, s_term
+
+
+def _rat(x):
+    from fractions import Fraction
+    fr = Fraction(float(x))
+    return z3.RealVal(f"{fr.numerator}/{fr.denominator}")
 
 
 def _same(x, y):
